@@ -47,6 +47,13 @@ func (tr *Tr) canInline(fr *frame, fn *ssa.Function) bool {
 	if fn.Recover != nil {
 		return false
 	}
+	if fn.Pkg.Pkg.Path() == "math" {
+		// bit casts through unsafe.Pointer (and what is built on them): uninterpreted pure functions
+		switch fn.Name() {
+		case "Float32frombits", "Float64frombits", "Float32bits", "Float64bits", "NaN", "Inf", "IsNaN", "IsInf":
+			return false
+		}
+	}
 	return inModule(fn) || inlineStdlib[fn.Pkg.Pkg.Path()]
 }
 
@@ -356,6 +363,42 @@ func (tr *Tr) applyContract(fr *frame, callee *ssa.Function, c *Contract, args [
 		}
 		tr.oblige(fr, "pre:"+sc, clauseLabel(r, k), "", fr.curReach, t, pos, "precondition of "+c.Key+": "+r.Text)
 	}
+	// allocation requests of the callee against the maxalloc clause of the function under verification
+	for _, ac := range []*Clause{c.Allocates, c.MaxAlloc} {
+		if ac == nil || tr.topFrame == nil || tr.topFrame.contract == nil || tr.topFrame.contract.MaxAlloc == nil {
+			continue
+		}
+		if ac == c.MaxAlloc && tr.topFrame.contract == c {
+			continue // recursion: the same bound in terms of a smaller input is the callee's own obligation
+		}
+		av, err := env.evalVal(ac.S)
+		if err != nil {
+			vfail("%s: contract of %s: allocates/maxalloc: %v", fr.fn, c.Key, err)
+		}
+		if av.K != nil {
+			av = env.coerce(av, tInt)
+		}
+		tr.allocRequest(fr, to64(av), pos, "call of "+c.Key)
+	}
+	// direct recursion: the callee's measure at the call is below the measure at entry, which is not negative
+	if c.Decreases != nil && tr.topFrame != nil && callee == tr.topFrame.fn && tr.topFrame.contract == c {
+		mv, err := env.evalVal(c.Decreases.S)
+		if err != nil {
+			vfail("%s: contract of %s: decreases: %v", fr.fn, c.Key, err)
+		}
+		if mv.K != nil {
+			mv = env.coerce(mv, tInt)
+		}
+		e0, err := tr.entryEnv(tr.topFrame).evalVal(c.Decreases.S)
+		if err != nil {
+			vfail("%s: contract of %s: decreases at entry: %v", fr.fn, c.Key, err)
+		}
+		if e0.K != nil {
+			e0 = env.coerce(e0, tInt)
+		}
+		f := and(app("bvsge", e0.T, bvI(0, intWidth(e0.Ty))), app("bvslt", mv.T, e0.T))
+		tr.oblige(fr, "decreases", "rec:"+sc, c.Decreases.Prop, fr.curReach, f, pos, "measure of the recursive call is below the measure at entry, which is bounded below: "+c.Decreases.Text)
+	}
 	// havoc what the callee may assign
 	if !c.HasAssigns {
 		oldA := tr.curA(fr)
@@ -385,6 +428,7 @@ func (tr *Tr) applyContract(fr *frame, callee *ssa.Function, c *Contract, args [
 					continue
 				}
 				cur := old
+				cur = tr.sinceHavoc(fr, k, cur, t)
 				for _, r := range t.refs {
 					fv := tr.declareConst(elemSortOfArray(tr.C.heapSort[k]), k+"_at")
 					cur = sto(cur, r, fv)
@@ -449,6 +493,23 @@ func (tr *Tr) applyContract(fr *frame, callee *ssa.Function, c *Contract, args [
 		tr.assume(fr.curReach, t)
 	}
 	return res
+}
+
+// sinceHavoc: heap array k after a call that may write objects at least as young as the bounds in
+// t.since: a fresh array that agrees with cur on every older object.
+func (tr *Tr) sinceHavoc(fr *frame, k, cur string, t *assignTarget) string {
+	if len(t.since) == 0 {
+		return cur
+	}
+	na := tr.declareConst(tr.C.heapSort[k], k+"_since")
+	q := tr.C.fresh("x")
+	var older []string
+	for _, b := range t.since {
+		older = append(older, tr.preExisting(q, b))
+	}
+	tr.assume(fr.curReach, fmt.Sprintf("(forall ((%s Int)) (! (=> %s (= (select %s %s) (select %s %s))) :pattern ((select %s %s))))",
+		q, and(older...), na, q, cur, q, na, q))
+	return na
 }
 
 // freshHeapAbove: objects with references in [oldA, newA) were allocated by the callee; the caller knows
@@ -616,6 +677,7 @@ func (tr *Tr) applyIfaceContract(fr *frame, c *Contract, cc *ssa.CallCommon, arg
 				continue
 			}
 			cur := tr.C.hget(fr.heap, k)
+			cur = tr.sinceHavoc(fr, k, cur, t)
 			for _, r := range t.refs {
 				cur = sto(cur, r, tr.declareConst(elemSortOfArray(tr.C.heapSort[k]), k+"_at"))
 			}
